@@ -61,6 +61,10 @@ def WP (C : Cfg) : S → Prop
   | .testA e name neg args => WP C e ∧ follow C e (some (.ident "is"))
       ∧ (neg = false → name ≠ "not") ∧ WPArgs C args
   | .arr items => WPItems C items
+  | .mapLit es => WPEntries C es
+  | .entryNil => False
+  | .entryKV .. => False
+  | .entrySpread .. => False
   | .argNil => False
   | .argCons .. => False
   | .itemNil => False
@@ -74,6 +78,12 @@ def WPArgs (C : Cfg) : S → Prop
 def WPItems (C : Cfg) : S → Prop
   | .itemNil => True
   | .itemCons _ x rest => WP C x ∧ WPItems C rest
+  | _ => False
+/-- the same for a list of map entries -/
+def WPEntries (C : Cfg) : S → Prop
+  | .entryNil => True
+  | .entryKV _ v rest => WP C v ∧ WPEntries C rest
+  | .entrySpread x rest => WP C x ∧ WPEntries C rest
   | _ => False
 end
 
@@ -111,6 +121,7 @@ theorem head_toks_ne_colon (s : S) : s.toks.head? ≠ some .colon := by
     simp only [S.toks]
     refine head_append_ne _ _ _ (by cases sp <;> simp) (head_append_ne _ _ _ ihx
       (head_append_ne _ _ _ (by cases r <;> simp [S.sepToks]) ihr))
+  | entryKV k v r ihv ihr => cases k <;> simp [S.toks, SKey.tok]
   | _ => simp [S.toks]
 
 /-- an expression never starts with a closing bracket, a spread or a separator -/
@@ -143,6 +154,9 @@ theorem head_toks_expr (C : Cfg) (s : S) (h : WP C s) (t : Tok)
   | argCons => simp [WP] at h
   | itemNil => simp [WP] at h
   | itemCons => simp [WP] at h
+  | entryNil => simp [WP] at h
+  | entryKV => simp [WP] at h
+  | entrySpread => simp [WP] at h
   | _ => rcases ht with rfl | rfl | rfl | rfl | rfl <;> simp [S.toks]
 
 theorem fitsLeft_zero (C : Cfg) (s : S) : fitsLeft C s 0 := by
@@ -308,14 +322,41 @@ theorem items_tail_head {C : Cfg} (r : S) (h : WPItems C r) (rest : List Tok) :
       ∧ (t = .comma ∨ t = .rightBracket) := by
   cases r <;> simp_all [WPItems, S.sepToks, S.toks]
 
+def entryCount : S → Nat
+  | .entryKV _ _ r => 1 + entryCount r
+  | .entrySpread _ r => 1 + entryCount r
+  | _ => 0
+
+theorem entryCount_le (s : S) : entryCount s ≤ s.toks.length := by
+  induction s <;> simp_all [entryCount, S.toks] <;> omega
+
+/-- ... and for a list of map entries: the loop of `parse_map` -/
+def EntriesProp (C : Cfg) (s : S) : Prop :=
+  ∀ (b : Nat) (acc : List MapEntry) (lit : Bool) (n : Nat) (rest : List Tok) (ad br : Nat),
+    WPEntries C s → entryCount s + 1 ≤ n → s.need ≤ b + 1 →
+    (br + s.bneed ≤ C.maxBrackets ∧ ad + s.adneed ≤ C.maxArray) →
+    mapLoop (innerParseExpression C b) n acc lit
+        ⟨(if acc.isEmpty then [] else S.sepToks s) ++ (s.toks ++ .rightBrace :: rest), ad, br⟩
+      = .ok (acc ++ S.eraseEntries s, lit && S.mapLitOf (S.eraseEntries s))
+          ⟨.rightBrace :: rest, ad, br⟩
+
+/-- what follows an entry inside a map literal is `,` or `}` -/
+theorem entries_tail_head {C : Cfg} (r : S) (h : WPEntries C r) (rest : List Tok) :
+    ∃ t ts, S.sepToks r ++ (r.toks ++ Tok.rightBrace :: rest) = t :: ts
+      ∧ (t = .comma ∨ t = .rightBrace) := by
+  cases r <;> simp_all [WPEntries, S.sepToks, S.toks]
+
+theorem classify_rightBrace : classify .rightBrace = .other := by decide
+
 /-- the list-shaped properties hold vacuously for what is not a list -/
 macro "vac_lists" : tactic =>
   `(tactic| exact ⟨by intro _ _ _ _ _ _ h; simp [WPArgs] at h,
-      by intro _ _ _ _ _ _ _ h; simp [WPItems] at h⟩)
+      by intro _ _ _ _ _ _ _ h; simp [WPItems] at h,
+      by intro _ _ _ _ _ _ _ h; simp [WPEntries] at h⟩)
 
 /-- The Pratt-parser induction. -/
 theorem parse_both (C : Cfg) (s : S) :
-    LoopProp C s ∧ ChainProp C s ∧ ArgsProp C s ∧ ItemsProp C s := by
+    LoopProp C s ∧ ChainProp C s ∧ ArgsProp C s ∧ ItemsProp C s ∧ EntriesProp C s := by
   induction s with
   | int v =>
     refine ⟨?_, by intro h; simp [S.isChain] at h, by vac_lists⟩
@@ -564,7 +605,8 @@ theorem parse_both (C : Cfg) (s : S) :
 
   | argNil =>
     refine ⟨by intro _ _ _ _ _ h; simp [WP] at h, by intro h; simp [S.isChain] at h, ?_,
-      by intro _ _ _ _ _ _ _ h; simp [WPItems] at h⟩
+      by intro _ _ _ _ _ _ _ h; simp [WPItems] at h,
+      by intro _ _ _ _ _ _ _ h; simp [WPEntries] at h⟩
     intro b acc n rest ad br _ _ hn _ _
     obtain ⟨n', rfl⟩ : ∃ n', n = n' + 1 := ⟨n - 1, by omega⟩
     have : (if acc.isEmpty then [] else S.sepToks S.argNil) ++ (S.argNil.toks ++ Tok.rightParen :: rest)
@@ -573,7 +615,8 @@ theorem parse_both (C : Cfg) (s : S) :
     simp [insertAll, S.eraseArgs]
   | argCons k v r ihv ihr =>
     refine ⟨by intro _ _ _ _ _ h; simp [WP] at h, by intro h; simp [S.isChain] at h, ?_,
-      by intro _ _ _ _ _ _ _ h; simp [WPItems] at h⟩
+      by intro _ _ _ _ _ _ _ h; simp [WPItems] at h,
+      by intro _ _ _ _ _ _ _ h; simp [WPEntries] at h⟩
     intro b acc n rest ad br hwp hfresh hn hneed hbr
     obtain ⟨hwv, hk, hwr⟩ := hwp
     simp only [S.need] at hneed
@@ -671,7 +714,8 @@ theorem parse_both (C : Cfg) (s : S) :
 
   | itemNil =>
     refine ⟨by intro _ _ _ _ _ h; simp [WP] at h, by intro h; simp [S.isChain] at h,
-      by intro _ _ _ _ _ _ h; simp [WPArgs] at h, ?_⟩
+      by intro _ _ _ _ _ _ h; simp [WPArgs] at h, ?_,
+      by intro _ _ _ _ _ _ _ h; simp [WPEntries] at h⟩
     intro b acc lit n rest ad br _ hn _ _
     obtain ⟨n', rfl⟩ : ∃ n', n = n' + 1 := ⟨n - 1, by omega⟩
     have : (if acc.isEmpty then [] else S.sepToks S.itemNil) ++ (S.itemNil.toks ++ Tok.rightBracket :: rest)
@@ -680,7 +724,8 @@ theorem parse_both (C : Cfg) (s : S) :
     simp [S.eraseItems, litOf]
   | itemCons sp x r ihx ihr =>
     refine ⟨by intro _ _ _ _ _ h; simp [WP] at h, by intro h; simp [S.isChain] at h,
-      by intro _ _ _ _ _ _ h; simp [WPArgs] at h, ?_⟩
+      by intro _ _ _ _ _ _ h; simp [WPArgs] at h, ?_,
+      by intro _ _ _ _ _ _ _ h; simp [WPEntries] at h⟩
     intro b acc lit n rest ad br hwp hn hneed hbr
     obtain ⟨hwx, hwr⟩ := hwp
     simp only [S.need] at hneed
@@ -696,7 +741,7 @@ theorem parse_both (C : Cfg) (s : S) :
           by simp [stopsTok, classify_rightBracket], by simp⟩
     have hx := complete (ihx.1 b 0 (t :: ts) ad br hwx (fitsLeft_zero C x) hcloser.1 (by omega) (by omega))
       hcloser.2.1
-    have hrec := ihr.2.2.2 b
+    have hrec := ihr.2.2.2.1 b
     cases sp with
     | false =>
       have e1 : (if acc.isEmpty then [] else S.sepToks (S.itemCons false x r))
@@ -737,13 +782,100 @@ theorem parse_both (C : Cfg) (s : S) :
     refine ⟨rest.length + 1, Nat.le_refl _, ?_⟩
     have e1 : (S.arr items).toks ++ rest
         = .leftBracket :: (items.toks ++ .rightBracket :: rest) := by simp [S.toks]
-    have hloop := ih.2.2.2 b' [] true ((items.toks ++ Tok.rightBracket :: rest).length + 1) rest
+    have hloop := ih.2.2.2.1 b' [] true ((items.toks ++ Tok.rightBracket :: rest).length + 1) rest
       (ad + 1) br hw (by have := itemCount_le items hw; simp; omega) hneed (by omega)
     simp only [List.isEmpty_nil, if_true, List.nil_append, Bool.true_and] at hloop
     rw [e1, inner_succ]
     have hp := prefix_array C (innerParseExpression C b') _ _ _ _ ad br (ad + 1) br (by omega) hloop
     rw [finish_array] at hp
     simpa [S.erase] using parseExprBp_of_prefix _ _ m _ _ _ _ _ hp
+
+  | entryNil =>
+    refine ⟨by intro _ _ _ _ _ h; simp [WP] at h, by intro h; simp [S.isChain] at h,
+      by intro _ _ _ _ _ _ h; simp [WPArgs] at h,
+      by intro _ _ _ _ _ _ _ h; simp [WPItems] at h, ?_⟩
+    intro b acc lit n rest ad br _ hn _ _
+    obtain ⟨n', rfl⟩ : ∃ n', n = n' + 1 := ⟨n - 1, by omega⟩
+    have : (if acc.isEmpty then [] else S.sepToks S.entryNil) ++ (S.entryNil.toks ++ Tok.rightBrace :: rest)
+        = Tok.rightBrace :: rest := by simp [S.sepToks, S.toks]
+    rw [this, map_stop]
+    simp [S.eraseEntries, S.mapLitOf]
+  | entryKV k v r ihv ihr =>
+    refine ⟨by intro _ _ _ _ _ h; simp [WP] at h, by intro h; simp [S.isChain] at h,
+      by intro _ _ _ _ _ _ h; simp [WPArgs] at h,
+      by intro _ _ _ _ _ _ _ h; simp [WPItems] at h, ?_⟩
+    intro b acc lit n rest ad br hwp hn hneed hbr
+    obtain ⟨hwv, hwr⟩ := hwp
+    simp only [S.need] at hneed
+    simp only [S.bneed, S.adneed] at hbr
+    simp only [entryCount] at hn
+    obtain ⟨n', rfl⟩ : ∃ n', n = n' + 1 := ⟨n - 1, by omega⟩
+    obtain ⟨t, ts, htail, ht⟩ := entries_tail_head r hwr rest
+    have hcloser : follow C v (some t) ∧ stopsTok C 0 (some t) := by
+      rcases ht with rfl | rfl
+      · exact ⟨follow_closer _ classify_comma (by simp [chainTok]) (by simp) v,
+          by simp [stopsTok, classify_comma]⟩
+      · exact ⟨follow_closer _ classify_rightBrace (by simp [chainTok]) (by simp) v,
+          by simp [stopsTok, classify_rightBrace]⟩
+    have hv := complete (ihv.1 b 0 (t :: ts) ad br hwv (fitsLeft_zero C v) hcloser.1 (by omega) (by omega))
+      hcloser.2
+    have e1 : (if acc.isEmpty then [] else S.sepToks (S.entryKV k v r))
+          ++ ((S.entryKV k v r).toks ++ Tok.rightBrace :: rest)
+        = (if acc.isEmpty then [] else [Tok.comma]) ++ k.tok :: .colon :: (v.toks ++ (t :: ts)) := by
+      rw [← htail]; simp [S.sepToks, S.toks]
+    rw [e1, map_step_kv _ n' acc lit k _ _ ad br _ hv, ← htail]
+    have := ihr.2.2.2.2 b (acc ++ [.keyValue k.key v.erase]) (lit && v.erase.isLiteral) n' rest ad br
+      hwr (by omega) (by omega) (by omega)
+    have hne : ∀ (y : MapEntry), (acc ++ [y]).isEmpty = false := by intro y; cases acc <;> simp
+    simp only [hne, Bool.false_eq_true, if_false] at this
+    rw [this]
+    simp [S.eraseEntries, mapLitOf_cons, S.entryLit, Bool.and_assoc]
+  | entrySpread x r ihx ihr =>
+    refine ⟨by intro _ _ _ _ _ h; simp [WP] at h, by intro h; simp [S.isChain] at h,
+      by intro _ _ _ _ _ _ h; simp [WPArgs] at h,
+      by intro _ _ _ _ _ _ _ h; simp [WPItems] at h, ?_⟩
+    intro b acc lit n rest ad br hwp hn hneed hbr
+    obtain ⟨hwx, hwr⟩ := hwp
+    simp only [S.need] at hneed
+    simp only [S.bneed, S.adneed] at hbr
+    simp only [entryCount] at hn
+    obtain ⟨n', rfl⟩ : ∃ n', n = n' + 1 := ⟨n - 1, by omega⟩
+    obtain ⟨t, ts, htail, ht⟩ := entries_tail_head r hwr rest
+    have hcloser : follow C x (some t) ∧ stopsTok C 0 (some t) := by
+      rcases ht with rfl | rfl
+      · exact ⟨follow_closer _ classify_comma (by simp [chainTok]) (by simp) x,
+          by simp [stopsTok, classify_comma]⟩
+      · exact ⟨follow_closer _ classify_rightBrace (by simp [chainTok]) (by simp) x,
+          by simp [stopsTok, classify_rightBrace]⟩
+    have hx := complete (ihx.1 b 0 (t :: ts) ad br hwx (fitsLeft_zero C x) hcloser.1 (by omega) (by omega))
+      hcloser.2
+    have e1 : (if acc.isEmpty then [] else S.sepToks (S.entrySpread x r))
+          ++ ((S.entrySpread x r).toks ++ Tok.rightBrace :: rest)
+        = (if acc.isEmpty then [] else [Tok.comma]) ++ .spread :: (x.toks ++ (t :: ts)) := by
+      rw [← htail]; simp [S.sepToks, S.toks]
+    rw [e1, map_step_spread _ n' acc lit _ _ ad br _ hx, ← htail]
+    have := ihr.2.2.2.2 b (acc ++ [.spread x.erase]) false n' rest ad br
+      hwr (by omega) (by omega) (by omega)
+    have hne : ∀ (y : MapEntry), (acc ++ [y]).isEmpty = false := by intro y; cases acc <;> simp
+    simp only [hne, Bool.false_eq_true, if_false] at this
+    rw [this]
+    simp [S.eraseEntries, mapLitOf_cons, S.entryLit]
+  | mapLit es ih =>
+    refine ⟨?_, by intro h; simp [S.isChain] at h, by vac_lists⟩
+    intro b m rest ad br hwp _ _ hneed hbr
+    obtain ⟨b', rfl⟩ : ∃ b', b = b' + 1 := ⟨b - 1, by have := need_pos es; simp [S.need] at hneed; omega⟩
+    simp only [S.need] at hneed
+    simp only [S.bneed, S.adneed] at hbr
+    have hw : WPEntries C es := hwp
+    refine ⟨rest.length + 1, Nat.le_refl _, ?_⟩
+    have e1 : (S.mapLit es).toks ++ rest
+        = .leftBrace :: (es.toks ++ .rightBrace :: rest) := by simp [S.toks]
+    have hloop := ih.2.2.2.2 b' [] true ((es.toks ++ Tok.rightBrace :: rest).length + 1) rest
+      ad br hw (by have := entryCount_le es; simp; omega) hneed hbr
+    simp only [List.isEmpty_nil, if_true, List.nil_append, Bool.true_and] at hloop
+    rw [e1, inner_succ]
+    have hp := prefix_map C (innerParseExpression C b') _ _ _ _ ad br ad br hloop
+    simpa [S.erase, S.foldMap] using parseExprBp_of_prefix _ _ m _ _ _ _ _ hp
 
 /-- The Pratt-parser induction (the statement used by the property theorems). -/
 theorem parse_loop (C : Cfg) (s : S) : LoopProp C s := (parse_both C s).1
